@@ -780,3 +780,97 @@ pub fn run_c19w(o: &crate::Opts) {
     let n_cases = sink.n;
     sink.finish(o, &format!("{{\"cases\":{},\"watch_sessions\":{},\"samples\":[]}}", n_cases, n));
 }
+
+// ------------------------------------------------------------------ C09 (process mode)
+
+/// C09 at process level, in both output modes: `lace debug --command <non-mutating script>` and
+/// `lace run` of the same source with the same input must give the same stdout and exit status.
+pub fn run_c09p(o: &crate::Opts) {
+    let mut sink = crate::Sink::new(o);
+    let tmp = TmpDir::new(&format!("c09p-{}", o.shard));
+    let dir = tmp.0.clone();
+    let one = |dir: &Path, src: &str, script: &str, inp: &[u8], stack: bool, minimal: bool| -> String {
+        std::fs::write(dir.join("d.asm"), src).unwrap();
+        let mut common: Vec<&str> = Vec::new();
+        if minimal {
+            common.push("--minimal");
+        }
+        if stack {
+            common.extend_from_slice(&["-f", "stack"]);
+        }
+        let mut a = vec!["debug", "d.asm", "--command", script];
+        a.extend_from_slice(&common);
+        let d = spawn(dir, &a, inp, 15000);
+        let mut a = vec!["run", "d.asm"];
+        a.extend_from_slice(&common);
+        let r = spawn(dir, &a, inp, 15000);
+        if d.status.is_none() || r.status.is_none() {
+            return "skip-timeout".to_string();
+        }
+        if d.status == r.status && d.stdout == r.stdout {
+            "holds".to_string()
+        } else {
+            format!(
+                "differs: debug status {:?} run status {:?}; debug stdout {} run stdout {}",
+                d.status, r.status, hex(&d.stdout), hex(&r.stdout)
+            )
+        }
+    };
+    if let Some(path) = &o.replay {
+        for line in std::fs::read_to_string(path).unwrap().lines() {
+            let f: Vec<&str> = line.split_whitespace().collect();
+            let obs = (|| {
+                let stack = *f.get(1)? != "0";
+                let minimal = *f.get(2)? != "0";
+                let src = String::from_utf8(unhex(f.get(3)?)?).ok()?;
+                let script = String::from_utf8(unhex(f.get(4)?)?).ok()?;
+                let inp = unhex(f.get(5)?)?;
+                Some(one(&dir, &src, &script, &inp, stack, minimal))
+            })()
+            .unwrap_or_else(|| "bad-request".into());
+            sink.put(line, &obs);
+        }
+        sink.finish(o, "{}");
+        return;
+    }
+    let mut rng = Rng::new(o.seed.wrapping_mul(31337) ^ (o.shard as u64) << 32 ^ 0xC09F);
+    let total: u64 = if o.thorough { 3000 } else { 160 };
+    let per = total / o.nshards as u64;
+    let mut n_min = 0u64;
+    for _ in 0..per {
+        let p = loop {
+            let p = gen_structured(&mut rng);
+            if p.kind != "rti" {
+                break p;
+            }
+        };
+        let n = p.words.len();
+        let mut c = crate::dbg::decorate(&mut rng, &p, "D09", vec![], 0);
+        let mut lines: Vec<String> = Vec::new();
+        for _ in 0..rng.below(10) {
+            let cmd = crate::dbg::rand_nonmutating(&mut rng, p.orig, n, &c.labels);
+            lines.push(crate::dbg::spell_cmd(&mut rng, &cmd));
+        }
+        if !p.inp.is_empty() || rng.chance(1, 2) {
+            lines.push("quit".into());
+        }
+        c.cmds = vec![];
+        let script = lines.join(if rng.chance(1, 2) { ";" } else { "\n" });
+        // REG prints a table whose shape depends on the mode but not on the debugger; fine in both
+        let minimal = rng.chance(1, 2);
+        if minimal {
+            n_min += 1;
+        }
+        let src = c.source();
+        let obs = one(&dir, &src, &script, &p.inp, p.stack, minimal);
+        if obs == "skip-timeout" {
+            continue;
+        }
+        sink.put(
+            &format!("Z09 {} {} {} {} {}", p.stack as u8, minimal as u8, hex(src.as_bytes()), hex(script.as_bytes()), hex(&p.inp)),
+            &obs,
+        );
+    }
+    let n_cases = sink.n;
+    sink.finish(o, &format!("{{\"cases\":{},\"process_pairs_minimal\":{},\"samples\":[]}}", n_cases, n_min));
+}
